@@ -1,0 +1,50 @@
+//go:build verif
+
+package net
+
+// Hooks for the verification harness (/verif). Compiled only with
+// the build tag "verif"; nothing here is used by the package itself.
+
+// VerifEndPoint builds an endPoint over stream exactly as NewEndPoint
+// does but leaves its process goroutine to the caller: process is the
+// endpoint's read-and-dispatch loop (it returns once reading fails and
+// every handler has been handed to closeWith), dispatch is the
+// endpoint's dispatch method.
+func VerifEndPoint(stream Stream) (e EndPoint, process func(), dispatch func(*Message) error) {
+	ep := &endPoint{
+		stream:   stream,
+		handlers: make([]*Handler, 10),
+	}
+	return ep, ep.process, ep.dispatch
+}
+
+// VerifHandlerTable reports which slots of the handler table of an
+// endpoint made by this package are occupied (read under the table's
+// mutex). Returns nil for other EndPoint implementations.
+func VerifHandlerTable(e EndPoint) []bool {
+	ep, ok := e.(*endPoint)
+	if !ok {
+		return nil
+	}
+	ep.handlersMutex.Lock()
+	defer ep.handlersMutex.Unlock()
+	t := make([]bool, len(ep.handlers))
+	for i, h := range ep.handlers {
+		t[i] = h != nil
+	}
+	return t
+}
+
+// VerifListenerAddr returns the address a Listener made by Listen is
+// bound to (host:port for tcp:// and tcps://, the socket path for
+// unix:// and pipe://), so that a harness can listen on a port chosen
+// by the operating system. Returns "" for other implementations.
+func VerifListenerAddr(l Listener) string {
+	switch c := l.(type) {
+	case connListener:
+		return c.l.Addr().String()
+	case pipeListener:
+		return c.l.Addr().String()
+	}
+	return ""
+}
